@@ -1,11 +1,13 @@
 //! `vh-storage` — storage-layer engines (DESIGN §3.2): TraversalQueue (C21), FactStore (C12/C13),
 //! session overlay (C13/C14).
+mod facts;
 mod queue;
 
 fn main() {
     let args = vrt::Args::parse();
     match args.sub.as_str() {
         "queue" => queue::run(&args),
+        "facts" => facts::run(&args),
         s => vrt::die(&format!("unknown subcommand {s}")),
     }
 }
